@@ -105,7 +105,7 @@ def eval (j : Json) : Except String Json := do
                ("numbersSmall", jbool (numbersSmall md)),
                ("hypMagnet", jbool (magnetTailOk urlOk md)),
                ("filesIsDict", jbool filesIsDict),
-               ("hypThm", jbool (filesNotMapping md && (!fs.hasPath || pathsJoinable md) && numbersSmall md))]
+               ("hypThm", jbool (outsideD07fD07j fs md))]
 
 /-- op `c07.sound`: {bytes, urls} ↦ the executable specification on arbitrary bytes -/
 def sound (j : Json) : Except String Json := do
